@@ -37,6 +37,9 @@ def _init(prop, tier, seed):
     from props import load_obligations
 
     _OBS = {o.id: o for o in load_obligations(prop, tier, seed)}
+    if tier == "thorough":  # second solver (cvc5) on up to 25 verification conditions per obligation
+        for o in _OBS.values():
+            o.params = dict(o.params, _cvc5=25)
     _ARGS = (prop, tier, seed)
 
 
@@ -278,6 +281,9 @@ def write_evidence(prop, a, obs, results, violations, known_hits, unconfirmed, i
             solver_unknowns=tot("unknowns"),
             paths_aborted=tot("aborted"),
             paths_validated_concretely=tot("validated"),
+            paths_pruned_outside_domain=tot("pruned"),
+            second_solver=dict(solver="cvc5 (python wheel)", verification_conditions_rechecked=tot("cvc5_checked"), agree=tot("cvc5_agree"), disagree=tot("cvc5_disagree"),
+                               no_answer_within_4s=tot("cvc5_noanswer"), seconds=round(tot("cvc5_s"), 2)),
             obligations_with_proofs=nontrivial,
             confirmed_violations=len(violations),
             known_findings_matched=sorted({k.get("id", k["what"]) for _, _, k in known_hits}),
